@@ -104,7 +104,7 @@ theorem connect_self (c : Loc) (L : Int) (hL : 0 < L) (hwf : areaWF L L c = true
     have hin : ∀ l ∈ [Loc.simple p], RingIn L l := by
       intro l hl
       simp only [List.mem_singleton] at hl; subst hl
-      exact Or.inl ⟨p, rfl, by omega, by omega, by omega⟩
+      exact RingInStrict.ringIn (Or.inl ⟨p, rfl, by omega, by omega, by omega⟩)
     rw [connect_ring_closed _ L (by simp) hL hin]
     have ht : toR (.simple p) = .one p := rfl
     have hw : isWrappingShorter [Loc.simple p] L = false := by
